@@ -287,18 +287,31 @@ func runC14(c *Ctx) {
 				if !ok {
 					continue
 				}
-				for _, call := range callsIn(cc, "add") {
-					if len(call.Args) == 2 {
-						op, ok1 := constIntOf(info, call.Args[0])
-						off := int64(-1)
-						if se, ok := call.Args[1].(*ast.SliceExpr); ok && se.Low != nil && se.High == nil {
+				// the arm hands the line's payload and an opcode to the routine that files it (a closure or a
+				// helper, whatever its name): a call with an EditOp constant and a tail slice line[k:]
+				ast.Inspect(cc, func(m ast.Node) bool {
+					call, ok := m.(*ast.CallExpr)
+					if !ok {
+						return true
+					}
+					op, off, haveOp := int64(0), int64(-1), false
+					for _, a := range call.Args {
+						if tv, ok := info.Types[a]; ok {
+							if nt, ok := tv.Type.(*types.Named); ok && nt.Obj().Name() == "EditOp" {
+								if k, ok := constIntOf(info, a); ok {
+									op, haveOp = k, true
+								}
+							}
+						}
+						if se, ok := a.(*ast.SliceExpr); ok && se.Low != nil && se.High == nil {
 							off, _ = constIntOf(info, se.Low)
 						}
-						if ok1 {
-							rUnified[byte(v)] = rl{op, off}
-						}
 					}
-				}
+					if haveOp && off >= 0 {
+						rUnified[byte(v)] = rl{op, off}
+					}
+					return true
+				})
 			}
 		}
 		return true
@@ -463,10 +476,43 @@ func runC14(c *Ctx) {
 			return true
 		})
 		cutLetters := map[string]bool{}
+		// values of range variables over literals of string constants: for _, c := range [...]string{"a","c","d"}
+		rangeVals := map[types.Object][]string{}
+		ast.Inspect(rn, func(n ast.Node) bool {
+			rs, ok := n.(*ast.RangeStmt)
+			if !ok || rs.Value == nil {
+				return true
+			}
+			id, ok := rs.Value.(*ast.Ident)
+			if !ok {
+				return true
+			}
+			if cl, ok := rs.X.(*ast.CompositeLit); ok {
+				var vals []string
+				for _, e := range cl.Elts {
+					if kv, ok := e.(*ast.KeyValueExpr); ok {
+						e = kv.Value
+					}
+					if sv, ok := strConst(info, e); ok {
+						vals = append(vals, sv)
+					} else {
+						return true
+					}
+				}
+				if obj := info.Defs[id]; obj != nil {
+					rangeVals[obj] = vals
+				}
+			}
+			return true
+		})
 		for _, call := range callsIn(rn, "Cut") {
 			if len(call.Args) == 2 {
 				if s, ok := strConst(info, call.Args[1]); ok {
 					cutLetters[s] = true
+				} else if id, ok := call.Args[1].(*ast.Ident); ok {
+					for _, v := range rangeVals[info.Uses[id]] {
+						cutLetters[v] = true
+					}
 				}
 			}
 		}
@@ -497,33 +543,68 @@ func runC14(c *Ctx) {
 			}
 		}
 		rP := map[string]bool{}
-		ast.Inspect(rne, func(n ast.Node) bool {
-			ifs, ok := n.(*ast.IfStmt)
-			if !ok || ifs.Init == nil {
-				return true
-			}
-			as, ok := ifs.Init.(*ast.AssignStmt)
-			if !ok || len(as.Rhs) != 1 {
-				return true
-			}
-			call, ok := as.Rhs[0].(*ast.CallExpr)
-			if !ok || selName(call.Fun) != "CutPrefix" || len(call.Args) != 2 {
-				return true
-			}
-			pfx, ok := strConst(info, call.Args[1])
-			if !ok {
-				return true
-			}
-			// which field is appended in the body
-			ast.Inspect(ifs.Body, func(m ast.Node) bool {
-				if a2, ok := m.(*ast.AssignStmt); ok && len(a2.Lhs) == 1 {
-					if f := selName(a2.Lhs[0]); f == "X" || f == "Y" {
-						rP[pfx+"|"+f] = true
+		// a prefix test (CutPrefix / HasPrefix with a constant) governs a block — the body of the if
+		// statement or of the case clause it appears in — that appends the payload to X or to Y
+		prefixOf := func(e ast.Node) (string, bool) {
+			var pfx string
+			found := false
+			ast.Inspect(e, func(m ast.Node) bool {
+				if call, ok := m.(*ast.CallExpr); ok && (selName(call.Fun) == "CutPrefix" || selName(call.Fun) == "HasPrefix") && len(call.Args) == 2 {
+					if s2, ok := strConst(info, call.Args[1]); ok {
+						pfx, found = s2, true
 					}
 				}
 				return true
 			})
-			return true // keep descending: the other prefixes sit in the else-if chain
+			return pfx, found
+		}
+		fieldsAppended := func(body []ast.Stmt, pfx string) {
+			for _, st := range body {
+				ast.Inspect(st, func(m ast.Node) bool {
+					if a2, ok := m.(*ast.AssignStmt); ok && len(a2.Lhs) == 1 {
+						if f := selName(a2.Lhs[0]); f == "X" || f == "Y" {
+							// when the payload is cut by slicing, the offset must be the prefix length
+							okOff := true
+							ast.Inspect(a2, func(q ast.Node) bool {
+								if se, ok := q.(*ast.SliceExpr); ok && se.Low != nil && se.High == nil {
+									if k, ok := constIntOf(info, se.Low); ok && k != int64(len(pfx)) {
+										okOff = false
+									}
+								}
+								return true
+							})
+							if okOff {
+								rP[pfx+"|"+f] = true
+							} else {
+								rP[pfx+"|"+f+" (payload offset differs from the prefix length)"] = true
+							}
+						}
+					}
+					return true
+				})
+			}
+		}
+		ast.Inspect(rne, func(n ast.Node) bool {
+			switch x := n.(type) {
+			case *ast.IfStmt:
+				var hdr []ast.Node
+				if x.Init != nil {
+					hdr = append(hdr, x.Init)
+				}
+				hdr = append(hdr, x.Cond)
+				for _, h := range hdr {
+					if pfx, ok := prefixOf(h); ok {
+						fieldsAppended(x.Body.List, pfx)
+					}
+				}
+			case *ast.CaseClause:
+				for _, e := range x.List {
+					if pfx, ok := prefixOf(e); ok {
+						fieldsAppended(x.Body, pfx)
+					}
+				}
+			}
+			return true
 		})
 		var wl2, rl2 []string
 		for k := range wP {
